@@ -93,8 +93,9 @@ TrNotified ==
     /\ Advance
     /\ UNCHANGED <<avars, pend>>
 
+\* (only Stats can see whether a cancelled waiter is still queued)
 Drop(r) ==
-    /\ Observing
+    /\ Ev.op = "ret" /\ Ev.f = "Stats"
     /\ r \in waiters /\ r.id \in canc /\ r.id \notin nt
     /\ ADrop(r)
     /\ UNCHANGED <<pend, notif, nt, l, viol, vl>>
